@@ -13,6 +13,7 @@ import (
 	"github.com/inbucket/inbucket/v3/pkg/storage"
 	"github.com/inbucket/inbucket/v3/vsim/models"
 	"github.com/inbucket/inbucket/v3/vsim/simnet"
+	"github.com/inbucket/inbucket/v3/vsim/simfs"
 	"github.com/inbucket/inbucket/v3/vsim/simrt"
 )
 
@@ -48,6 +49,9 @@ type c13Case struct {
 	Script  []c13Cmd
 	End     string // quit close abort stall close-unread abort-unread stall-unread partial-quit
 	Other   []c13Other
+	// Racer (file back-end): removals by another interface that start at the
+	// moment the server makes the first file-system step of committing QUIT.
+	Racer []c13Other
 }
 
 func (k *c13Case) Describe() []string {
@@ -57,6 +61,9 @@ func (k *c13Case) Describe() []string {
 	}
 	for i, s := range k.Script {
 		l = append(l, fmt.Sprintf("cmd %d pause=%v %q", i, s.Pause, clipStr(s.Line, 80)+s.Term))
+	}
+	for i, o := range k.Racer {
+		l = append(l, fmt.Sprintf("racer %d: when QUIT starts to commit, remove from session mailbox ref=%d", i, o.Ref))
 	}
 	for i, o := range k.Other {
 		switch o.Kind {
@@ -286,6 +293,11 @@ func genC13(w *simrt.Choices, tier string, avoid map[string]bool) Case {
 		o.Ref = w.Choose(12)
 		k.Other = append(k.Other, o)
 	}
+	if k.Backend == "file" && w.Choose(2) == 0 {
+		for i, n := 0, 1+w.Choose(2); i < n; i++ {
+			k.Racer = append(k.Racer, c13Other{Kind: "remove", Ref: w.Choose(12)})
+		}
+	}
 	// avoid switches of known findings (applied after every choice was drawn, so
 	// the rest of the case is the same with and without the switch)
 	if avoid["stall-unread"] && k.End == "stall-unread" {
@@ -340,6 +352,9 @@ type c13Run struct {
 
 	open         bool // connection established and not yet ended by the client
 	other        *simrt.Task
+	racer        *simrt.Task
+	quitSent     bool // the client has sent QUIT in TRANSACTION state
+	commitBegun  bool // ... and the server has made a file-system step since
 	extChanges   int // mutations of the session mailbox by the other task so far
 	extDuring    int // ... while the session was open
 	listings     int
@@ -381,40 +396,63 @@ func (r *c13Run) runOther() {
 		if c.Failed() {
 			return
 		}
-		box := r.mailbox
-		if o.Box == 1 {
-			box = second
+		r.applyOther("other", o, second)
+	}
+}
+
+func (r *c13Run) applyOther(who string, o c13Other, second string) {
+	c := r.c
+	box := r.mailbox
+	if o.Box == 1 {
+		box = second
+	}
+	mutated := false
+	switch o.Kind {
+	case "add":
+		before := len(r.all[box])
+		r.addMsg(who, box, o.Size, o.Seed)
+		mutated = len(r.all[box]) > before
+	case "remove":
+		l := r.all[box]
+		if len(l) == 0 {
+			return
 		}
-		mutated := false
-		switch o.Kind {
-		case "add":
-			before := len(r.all[box])
-			r.addMsg("other", box, o.Size, o.Seed)
-			mutated = len(r.all[box]) > before
-		case "remove":
-			l := r.all[box]
-			if len(l) == 0 {
-				continue
-			}
-			e := l[o.Ref%len(l)]
-			err := r.st.RemoveMessage(box, e.ID)
-			c.Logf("other remove %q id %s -> %s", box, e.ID, errStr(err))
-			switch {
-			case err == nil:
-				r.removedByOther[r.key(box, e.ID)] = true
-				mutated = true
-			case isNotExist(err):
-			default:
-				c.Failf("store/remove-error", "other: RemoveMessage(%q, %q): %v", box, e.ID, err)
-			}
+		e := l[o.Ref%len(l)]
+		err := r.st.RemoveMessage(box, e.ID)
+		c.Logf("%s remove %q id %s -> %s", who, box, e.ID, errStr(err))
+		switch {
+		case err == nil:
+			r.removedByOther[r.key(box, e.ID)] = true
+			mutated = true
+		case isNotExist(err):
+		default:
+			c.Failf("store/remove-error", "%s: RemoveMessage(%q, %q): %v", who, box, e.ID, err)
 		}
-		if mutated && box == r.mailbox {
-			r.extChanges++
-			if r.open {
-				r.extDuring++
-				c.Stat("probe.external_change_during_session", 1)
-			}
+	}
+	if mutated && box == r.mailbox {
+		r.extChanges++
+		if r.open {
+			r.extDuring++
+			c.Stat("probe.external_change_during_session", 1)
 		}
+	}
+}
+
+// runRacer waits until the server session makes its first file-system step
+// after the client has sent QUIT in TRANSACTION state (the commit of the
+// marks has begun) and then removes messages of the same mailbox through
+// the store, as the REST API or another POP3 session would at that moment.
+func (r *c13Run) runRacer() {
+	t := simrt.Current()
+	if !r.commitBegun && !r.clientEnded {
+		t.Block("racer waits for the commit of QUIT")
+	}
+	if !r.commitBegun || r.c.Failed() {
+		return
+	}
+	r.c.Stat("probe.removal_racing_quit_commit", 1)
+	for _, o := range r.k.Racer {
+		r.applyOther("racer", o, "")
 	}
 }
 
@@ -484,6 +522,21 @@ func (r *c13Run) login() {
 	}
 	if len(r.k.Other) > 0 {
 		r.other = simrt.Go("other", r.runOther)
+	}
+	if len(r.k.Racer) > 0 {
+		r.racer = simrt.Go("racer", r.runRacer)
+		if fsys := simfs.Installed(c.Sim); fsys != nil {
+			fsys.BeforeStep = func(_ *simfs.FS, st simfs.Step) {
+				if !r.quitSent || r.commitBegun {
+					return
+				}
+				if cur := simrt.Current(); cur == nil || cur.Name == "client" || cur.Name == "other" || cur.Name == "racer" || cur.Name == "main" {
+					return
+				}
+				r.commitBegun = true
+				c.Sim.MakeReady(r.racer)
+			}
+		}
 	}
 }
 
@@ -704,6 +757,9 @@ func (r *c13Run) runClient() {
 		}
 		r.open = false
 		r.clientEnd, r.clientEnded = time.Now(), true
+		if r.racer != nil {
+			c.Sim.MakeReady(r.racer)
+		}
 	}()
 	r.ending = "none"
 	cl, err := dialPOP3(c, "client", k.Timeout+30*time.Second)
@@ -730,6 +786,9 @@ func (r *c13Run) runClient() {
 			c.Failf("unexpected-disconnect", "sending command %d %q failed: %v", i, clipStr(cmd.Line, 60), err)
 			r.ending = "server-closed"
 			return
+		}
+		if verb == "QUIT" && r.state == "txn" {
+			r.quitSent = true
 		}
 		if i == len(k.Script)-1 && c13Unread(k.End) {
 			lastUnread = true
@@ -888,6 +947,10 @@ func runC13(c *Ctx, cs Case) {
 	}
 	if r.other != nil {
 		c.Main.Join(r.other)
+	}
+	if r.racer != nil {
+		c.Sim.MakeReady(r.racer)
+		c.Main.Join(r.racer)
 	}
 	if c.Failed() {
 		return
